@@ -522,7 +522,9 @@ func (s *serverStream) SetTrailer(md metadata.MD) {
 	s.wmu.Lock()
 	defer s.wmu.Unlock()
 
-	s.tr = append(s.tr, md)
+	// keep a copy: the handler is free to re-use or change its metadata
+	// object after this call returns
+	s.tr = append(s.tr, md.Copy())
 }
 
 func (s *serverStream) Context() context.Context {
